@@ -46,6 +46,7 @@ RULE += '; exception instances as arguments and results; concurrent.futures exce
 RULE += '; an earlier call from the same place that changed a context variable; falsy raised exceptions'
 RULE += '; a bound asynchronous method handed to another helper (enumerated); arguments whose repr raises during the call'
 RULE += '; helpers over C-implemented callables; decorated methods of equal / unhashable receivers (both enumerated)'
+RULE += '; traced sync functions called from plain synchronous code; exceptions carrying a cause / context through every helper (enumerated)'
 LEVEL_TEXT = (
     "Differential: what the undecorated function receives, returns or raises is compared with the decorated call "
     "(identity for exceptions); inside the function the thread identity, a loop heartbeat and the caller's context "
@@ -468,6 +469,108 @@ def run_receivers(case) -> Outcome:
     return out
 
 
+def run_plain_sync(case) -> Outcome:
+    """a traced SYNCHRONOUS function called from plain synchronous code - no event loop is running, there is no scope at all
+    ("no scope nesting"): the function is invoked once with its arguments and its outcome reaches the caller"""
+    out = Outcome()
+    calls: list = []
+    err = FnErr("plain")
+
+    def f(x, *, k=2):
+        calls.append((x, k))
+        if case["outcome"] == "raise":
+            raise err
+        return ("value", x, k)
+
+    w = traced(f)
+    tag = f"traced-sync-without-a-running-loop/{case['outcome']}"
+    box: dict = {}
+
+    def in_thread():
+        # no event loop is RUNNING here; the thread has a current loop (what the main thread of a fresh process gets from
+        # asyncio on demand; scopes keep a future of that loop), set explicitly so that the case does not depend on what ran before
+        loop = asyncio.new_event_loop()
+        asyncio.set_event_loop(loop)
+        try:
+            box["r"] = ("ret", w(3, k=4))
+        except BaseException as exc:  # noqa: BLE001 - the observation
+            box["r"] = ("exc", exc)
+        finally:
+            asyncio.set_event_loop(None)
+            loop.close()
+
+    if case.get("thread"):
+        t = threading.Thread(target=in_thread)
+        t.start()
+        t.join()
+    else:
+        in_thread()
+    kind, val = box["r"]
+    if calls != [(3, 4)]:
+        out.violate("plain", f"C18.args/not-invoked-exactly-once-with-its-arguments/{tag}", f"calls={calls} result={box['r']!r:.200}")
+    if case["outcome"] == "raise":
+        if kind != "exc" or val is not err:
+            out.violate("plain", f"C18.exception/changed/{tag}", repr(box["r"])[:200])
+    elif box["r"] != ("ret", ("value", 3, 4)):
+        out.violate("plain", f"C18.result/changed/{tag}", repr(box["r"])[:200])
+    out.classes = ["traced-sync-function-called-without-a-running-loop"]
+    out.nontrivial = True
+    return out
+
+
+def run_chained(case) -> Outcome:
+    """the function raises an exception that carries a CAUSE (`raise A from B`) or an implicit context (raised inside an
+    `except` block), or one whose context was suppressed (`from None`): the caller gets that object with its chain untouched"""
+    out = Outcome()
+    name = case["helper"]
+    inner = FnErr("the cause")
+
+    def body(x):
+        if case["chain"] == "cause":
+            raise FnErr("outer") from inner
+        if case["chain"] == "context":
+            try:
+                raise inner
+            except FnErr:
+                raise KeyError("outer")  # noqa: B904 - the implicit context is the point
+        try:
+            raise inner
+        except FnErr:
+            raise ValueError("outer") from None
+
+    async def abody(x):
+        return body(x)
+
+    sync_helpers = {"asynchronous": asynchronous, "wrap_async": wrap_async, "traced": traced, "retry": retry(limit=1, catching=OSError), "cache": cache}
+    async_helpers = {"traced_async": traced, "retry_async": retry(limit=1, catching=OSError), "timeout": timeout(5), "cache_async": cache, "throttle": throttle}
+    w = sync_helpers[name](body) if name in sync_helpers else async_helpers[name](abody)
+    tag = f"{name}/{case['chain']}"
+
+    async def main():
+        async with ctx.scope("chained"):
+            try:
+                r = w(1)
+                if asyncio.iscoroutine(r) or asyncio.isfuture(r):
+                    r = await r
+                return ("ret", r)
+            except BaseException as exc:  # noqa: BLE001 - the observation
+                return ("exc", exc)
+
+    kind, exc = asyncio.run(main())
+    want_type = {"cause": FnErr, "context": KeyError, "suppressed": ValueError}[case["chain"]]
+    if kind != "exc" or type(exc) is not want_type:
+        out.violate("chain", f"C18.exception/changed/{tag}", repr((kind, exc))[:200])
+    elif case["chain"] == "cause" and (exc.__cause__ is not inner or not exc.__suppress_context__):
+        out.violate("chain", f"C18.exception/cause-not-kept/{tag}", f"__cause__={exc.__cause__!r} __suppress_context__={exc.__suppress_context__}")
+    elif case["chain"] == "context" and (exc.__context__ is not inner or exc.__suppress_context__ or exc.__cause__ is not None):
+        out.violate("chain", f"C18.exception/context-not-kept/{tag}", f"__context__={exc.__context__!r} __suppress_context__={exc.__suppress_context__} __cause__={exc.__cause__!r}")
+    elif case["chain"] == "suppressed" and (not exc.__suppress_context__ or exc.__cause__ is not None):
+        out.violate("chain", f"C18.exception/suppression-not-kept/{tag}", f"__suppress_context__={exc.__suppress_context__} __cause__={exc.__cause__!r}")
+    out.classes = ["chained-exception"]
+    out.nontrivial = True
+    return out
+
+
 class _nullctx:
     def __enter__(self):
         return self
@@ -483,6 +586,10 @@ def run_case(case) -> Outcome:  # noqa: C901, PLR0912, PLR0915
         return run_bound(case)
     if case.get("kind") == "builtin":
         return run_builtin(case)
+    if case.get("kind") == "plain_sync":
+        return run_plain_sync(case)
+    if case.get("kind") == "chained":
+        return run_chained(case)
     if case.get("kind") == "receivers":
         return run_receivers(case)
     out = Outcome()
@@ -1119,6 +1226,12 @@ def enumerate_cases(tier):
     for helper in ("asynchronous", "wrap_async", "traced", "retry", "cache"):
         for fn in ("len", "abs", "crc32", "sqrt"):
             yield {"kind": "builtin", "helper": helper, "fn": fn}
+    for outcome in ("return", "raise"):
+        for thread in (False, True):
+            yield {"kind": "plain_sync", "outcome": outcome, "thread": thread}
+    for helper in ("asynchronous", "wrap_async", "traced", "retry", "cache", "traced_async", "retry_async", "timeout", "cache_async", "throttle"):
+        for chain in ("cause", "context", "suppressed"):
+            yield {"kind": "chained", "helper": helper, "chain": chain}
     for helper in ("asynchronous", "asynchronous_executor", "retry", "retry_args", "traced"):
         for cls in ("eq", "unhashable"):
             yield {"kind": "receivers", "helper": helper, "cls": cls}
